@@ -21,6 +21,10 @@ pub struct Case {
     /// build everything first (so that verify / clean / needed meet existing files)
     pub prebuild: bool,
     pub opts: RunOpts,
+    /// after a successful prebuild, one processed source gets a failing command appended: the
+    /// run under test then fails at a directive while correct older outputs are lying around
+    #[serde(default)]
+    pub break_after_prebuild: bool,
 }
 
 fn gen_case(c: &mut Choices) -> Case {
@@ -45,6 +49,7 @@ fn gen_case(c: &mut Choices) -> Case {
     Case {
         project,
         prebuild: c.chance(1, 2),
+        break_after_prebuild: c.chance(1, 3),
         opts: RunOpts {
             mode,
             trailing_newline: !c.chance(1, 5),
@@ -89,7 +94,21 @@ pub fn check(case: &Case, st: &mut Stats) -> Check {
         b.mode = ModeS::Build;
         b.inputs = vec![".".into()];
         b.recursive = true;
-        let _ = runner::run_free(&su.sc.root, &b);
+        let pre = runner::run_free(&su.sc.root, &b);
+        if pre.ok && case.break_after_prebuild {
+            if let Some(s) = may.iter().next() {
+                let p = su.sc.root.join(s);
+                if let Ok(mut t) = std::fs::read(&p) {
+                    if !t.is_empty() && !t.ends_with(b"\n") {
+                        t.push(b'\n');
+                    }
+                    // a prefix no generated directive uses: the line cannot continue one
+                    t.extend_from_slice(b"%%TXTPP#run exit 3\n");
+                    let _ = std::fs::write(&p, t);
+                    st.class("source_broken_after_successful_prebuild");
+                }
+            }
+        }
     }
     fsx::stamp(&su.sc.root);
     let before = fsx::snapshot(&su.sc.root);
@@ -136,7 +155,7 @@ impl Prop for C10 {
         PropMeta {
             id: "C10",
             level: "exploration",
-            rule: "cases = generated projects (successful and failing, error rate raised) with decoy files next to sources, in subdirectories and at near-miss names (a.txt.bak, a.tx, txtpp, .txtpp, a.txtpp.b.c, atxtpp) x mode {build, needed, verify, clean} x input selection (whole tree, subsets by source or output name, extra directory) x recursive flag x pristine or pre-built tree. Oracle: full-tree snapshot (bytes, inode, mtime pre-set to a sentinel) before and after; every created / deleted / modified / touched path must be an output or a temp target (syntactic scan) of a source the run may process (input resolution model; closed under dependencies except for clean); verify must not touch outputs; clean must create nothing; whatever the verdict. Non-trivial = >=2 non-source files present and >=1 source processed.",
+            rule: "cases = generated projects (successful and failing, error rate raised) with decoy files next to sources, in subdirectories and at near-miss names (a.txt.bak, a.tx, txtpp, .txtpp, a.txtpp.b.c, atxtpp) x mode {build, needed, verify, clean} x input selection (whole tree, subsets by source or output name, extra directory) x recursive flag x pristine or pre-built tree, or pre-built and then one source broken by an appended failing command. Oracle: full-tree snapshot (bytes, inode, mtime pre-set to a sentinel) before and after; every created / deleted / modified / touched path must be an output or a temp target (syntactic scan) of a source the run may process (input resolution model; closed under dependencies except for clean); verify must not touch outputs; clean must create nothing; whatever the verdict. Non-trivial = >=2 non-source files present and >=1 source processed.",
             assumptions: vec!["the set of sources a run may process comes from the reference input-resolution model (C11 checks that model against the implementation)"],
             hang_is_violation: false,
             needs_cli: false,
